@@ -99,12 +99,10 @@ def meanOver (n : Nat) (cs : List Sig) : Sig := (Sig.vsum n cs).map (· / (cs.le
 
 def maxWidth (members : List (List Sig)) : Nat := members.foldr (fun r m => max r.length m) 0
 
-/-- per-IMF mean over the members; `K` columns where `K` is the cap or the widest member -/
-def ensembleMean (n : Nat) (cap : Option Nat) (members : List (List Sig)) : List Sig :=
-  let K := match cap with
-    | some k => k
-    | none => maxWidth members
-  (List.range K).map fun j => meanOver n (members.map fun r => colOr n r j)
+/-- per-IMF mean over the members; as many columns as the widest member has (every member is already
+    capped by the sift it runs), narrower members zero-padded -/
+def ensembleMean (n : Nat) (members : List (List Sig)) : List Sig :=
+  (List.range (maxWidth members)).map fun j => meanOver n (members.map fun r => colOr n r j)
 
 /-- repaired `ensemble_sift`: the parent draws, jobs are pure; per member (noise used, decomposition) -/
 def ensembleTrace {ρ : Type} (σ : Schedule) (draw : ρ → Sig × ρ) (g : ρ) (S : Sig → List Sig)
@@ -118,12 +116,12 @@ def ensembleTraceForkDraw {ρ : Type} (σ : Schedule) (draw : ρ → Sig × ρ) 
     g (List.range N)
 
 def ensembleSift {ρ : Type} (σ : Schedule) (draw : ρ → Sig × ρ) (g : ρ) (S : Sig → List Sig)
-    (mode : Mode) (N : Nat) (cap : Option Nat) (scale : Rat) (x : Sig) : List Sig :=
-  ensembleMean x.length cap ((ensembleTrace σ draw g S mode N scale x).map (·.2))
+    (mode : Mode) (N : Nat) (scale : Rat) (x : Sig) : List Sig :=
+  ensembleMean x.length ((ensembleTrace σ draw g S mode N scale x).map (·.2))
 
 def ensembleSiftForkDraw {ρ : Type} (σ : Schedule) (draw : ρ → Sig × ρ) (g : ρ) (S : Sig → List Sig)
-    (mode : Mode) (N : Nat) (cap : Option Nat) (scale : Rat) (x : Sig) : List Sig :=
-  ensembleMean x.length cap ((ensembleTraceForkDraw σ draw g S mode N scale x).map (·.2))
+    (mode : Mode) (N : Nat) (scale : Rat) (x : Sig) : List Sig :=
+  ensembleMean x.length ((ensembleTraceForkDraw σ draw g S mode N scale x).map (·.2))
 
 /-! complete ensemble: the parent holds a noise matrix (one column per member); every stage adds
     column `i` to the current residual for member `i`, averages the members' first IMFs, then
@@ -247,10 +245,6 @@ def handle (o : Op) : Option String :=
       let some N := o.nat? "n" | return "bad-op"
       let some flip := o.nat? "flip" | return "bad-op"
       let some mode := parseMode flip | return "bad-op"
-      let some capS := o.str? "cap" | return "bad-op"
-      let cap ← if capS = "none" then pure none else match capS.toNat? with
-        | some k => pure (some k)
-        | none => return "bad-op"
       let some scale := o.rat? "scale" | return "bad-op"
       let some tol := o.rat? "tol" | return "bad-op"
       let some p := o.nat? "p" | return "bad-op"
@@ -271,7 +265,7 @@ def handle (o : Op) : Option String :=
         | .flip => [Sig.add x (Sig.smul scale ν), Sig.sub x (Sig.smul scale ν)]
       if pts.any (fun a => !hasEntry tol tbl a) then return "oracle-desync sift-table-misses-a-member-input"
       let S := lookupTbl tol tbl []
-      let out := ensembleSift σ (listDraw x.length) noises S mode N cap scale x
+      let out := ensembleSift σ (listDraw x.length) noises S mode N scale x
       return s!"ok k={out.length}" ++ String.join (out.map fun c => " | " ++ fmtVec c)
   | "CEEMD" => some <| Id.run do
       let some N := o.nat? "n" | return "bad-op"
